@@ -33,6 +33,9 @@ func newChecker(prop string, w *World) *checkerSet {
 }
 
 func (cs *checkerSet) AfterTx(c *TxCtx) *core.Violation {
+	// A transaction whose second message fails must leave no trace of its first message.  Every
+	// property's state invariants are evaluated on the resulting state anyway; the properties that
+	// speak about rejected transactions (C01, C06, C19) check "no effect" explicitly below.
 	switch cs.prop {
 	case "C01":
 		return cs.c01Tx(c)
@@ -163,7 +166,7 @@ func describeOp(w *World, op *Op) string {
 func requiredProbes(property string) []string {
 	switch property {
 	case "C01":
-		return []string{"fault:out-of-gas-abort", "fault:crash-before-commit", "fault:export-import", "fault:duplicate-tx", "fault:wrong-signer", "ok:WithdrawLease", "ok:CloseDeployment"}
+		return []string{"fault:out-of-gas-abort", "fault:failing-second-message", "fault:crash-before-commit", "fault:export-import", "fault:duplicate-tx", "fault:wrong-signer", "ok:WithdrawLease", "ok:CloseDeployment"}
 	case "C02":
 		return []string{"probe:overdraft", "probe:overdraft-multi-payment", "probe:withdraw-settles"}
 	case "C03":
